@@ -43,6 +43,9 @@ class Sim(object):
         self.overrun = False
         self.harness_errors = []
         self.last_event_t = 0.0
+        self.livelock = False  # too many events inside one virtual instant: the system spins without time passing
+        self._same_t = 0
+        self.max_same_instant = 4000
 
     # -- randomness -------------------------------------------------------
     def rng(self, label):
@@ -74,6 +77,11 @@ class Sim(object):
         t, _tb, _seq, fn, args = heapq.heappop(self.heap)
         if t > self.now:
             self.now = t
+            self._same_t = 0
+        else:
+            self._same_t += 1
+            if self._same_t > self.max_same_instant:
+                self.livelock = True
         self.events_run += 1
         self.last_event_t = self.now
         for h in self.before_event:
@@ -89,6 +97,8 @@ class Sim(object):
                 return
             if self.events_run >= self.max_events:
                 self.overrun = True
+                return
+            if self.livelock:
                 return
             self.step()
             if stop is not None and stop():
@@ -173,8 +183,10 @@ class ProcReactor(object):
                 creator = _owner_of(f) or creator
         dc.sim_creator = creator
         dc.sim_delay = delay
+        fname = getattr(f, "__name__", None) or type(f).__name__
+        dc.sim_fname = fname
         self.calls.append(dc)
-        self.timer_log.append((len(self.sim.log), self.sim.now, delay, creator))
+        self.timer_log.append((len(self.sim.log), self.sim.now, delay, creator, fname))
         self.sim.record("timer", self.pid, creator, round(delay, 9))
         self._push(dc)
         return dc
